@@ -95,8 +95,12 @@ def rand_unit(rng, idx):
                     for _ in range(rng.choice([7, 8, 9])):
                         body.append(("if", ("bin", ">", ("name", "tick"), ("lit", "1")), 1, [("filler", 1)], None))
                 elif shape == "switches":
+                    arrow = rng.choice([0.0, 0.0, 0.5, 1.0])        # old-style, mixed, or all arrow-form switch statements
                     for _ in range(rng.choice([7, 8, 9])):
-                        body.append(("switch", ("name", "tick"), [[("filler", 1)], [("filler", 1)]]))
+                        if rng.random() < arrow:
+                            body.append(("switch_arrow", ("name", "tick"), [[("filler", 1)], [("filler", 1)]], rng.random() < 0.3))
+                        else:
+                            body.append(("switch", ("name", "tick"), [[("filler", 1)], [("filler", 1)]]))
                 elif shape == "long":
                     body.append(("filler", rng.choice([25, 26, 27, 28, 29, 30, 40])))
                 elif shape == "cond":
